@@ -388,21 +388,15 @@ Fixpoint walk (fuel : nat) (sks : list skel) (f : func) (T : list (N * skel)) (C
   | S k => walk_evs sks f T CL strict (walk k sks f T CL strict) evs cur used
   end.
 
-(* every child used: slot false of each, slot true of each Feed; and nothing else *)
+(* every child that has words is used: slot false of each, slot true of each Feed (a unit-typed `self` publishes Feed 0 and
+   returns with a plain Return: a cell without words needs no site) *)
 Fixpoint covered (i : nat) (T : list (N * skel)) (used : list key) : bool :=
   match T with
   | [] => true
   | (_, c) :: r =>
-      mem_key (i, false) used
-      && match c with Feed _ => mem_key (i, true) used | _ => true end
+      (N.eqb (size c) 0
+       || (mem_key (i, false) used && match c with Feed _ => mem_key (i, true) used | _ => true end))
       && covered (S i) r used
-  end.
-
-Fixpoint n_slots (T : list (N * skel)) : nat :=
-  match T with
-  | [] => O
-  | (_, Feed _) :: r => S (S (n_slots r))
-  | _ :: r => S (n_slots r)
   end.
 
 Definition check_fn (strict : bool) (sks : list skel) (f : func) : bool :=
@@ -410,17 +404,19 @@ Definition check_fn (strict : bool) (sks : list skel) (f : func) : bool :=
   | FnCall cs, Some b0 =>
       let T := tops_of 0 cs in
       match walk (S (length (f_blocks f))) sks f T (cells_list 0 cs) strict b0 0 [] with
-      | WRet used => covered 0 T used && Nat.eqb (length used) (n_slots T)
+      | WRet used => covered 0 T used
       | _ => false
       end
   | _, _ => false
   end.
 
+Definition check_prog_s (strict : bool) (p : prog) : bool := forallb (check_fn strict (map f_skel p)) p.
+
 (* the checker of property C05 *)
-Definition check_prog (p : prog) : bool := forallb (check_fn false (map f_skel p)) p.
+Definition check_prog (p : prog) : bool := check_prog_s false p.
 
 (* ... and its strict form: in addition no two call sites, at any depth, share a cell *)
-Definition check_prog_strict (p : prog) : bool := forallb (check_fn true (map f_skel p)) p.
+Definition check_prog_strict (p : prog) : bool := check_prog_s true p.
 
 Definition check_rprog (rp : rprog) : bool := check_prog (erase rp).
 
